@@ -103,24 +103,60 @@ func isSessionFrame(m map[string]interface{}) bool {
 
 // RawPeer is a scripted endpoint that speaks raw frames to a real lime endpoint.
 type RawPeer struct {
-	w      *World
-	h      *History
-	Idx    int
-	Kind   string // tcp, ws, inproc
-	raw    *simnet.Conn
-	conn   net.Conn // raw or TLS
-	ws     *websocket.Conn
-	tr     lime.Transport
-	TLS    bool
-	WSS    bool
-	closed *Flag // the remote side ended the connection (EOF, reset, error)
-	nFrame int
-	newFrm chan struct{}
-	reader *Flag // set when the current reader task has exited
-	pause  bool  // reader stopped because a TLS confirmation arrived
-	Link   *simnet.Link
+	w       *World
+	h       *History
+	Idx     int
+	Kind    string // tcp, ws, inproc
+	raw     *simnet.Conn
+	conn    net.Conn // raw or TLS
+	ws      *websocket.Conn
+	tr      lime.Transport
+	TLS     bool
+	WSS     bool
+	closed  *Flag // the remote side ended the connection (EOF, reset, error)
+	nFrame  int
+	newFrm  chan struct{}
+	reader  *Flag // set when the current reader task has exited
+	pause   bool  // reader stopped because a TLS confirmation arrived
+	pausing bool  // PauseReader is interrupting the reader
+	Link    *simnet.Link
 	// ReadGate, when set, is called by the in-process reader before every Receive.
 	ReadGate func()
+	// HelloDelim / HelloSplit shape the first TLS flight this peer writes in UpgradeTLS: JSON
+	// whitespace (an envelope delimiter that is late) travels in front of it in the same segment,
+	// and the flight is cut after HelloSplit bytes (0: not at all). Legal for any endpoint.
+	HelloDelim string
+	HelloSplit int
+}
+
+// helloConn writes the first TLS flight as delim+flight[:split], a pause, flight[split:].
+type helloConn struct {
+	net.Conn
+	delim string
+	split int
+	done  bool
+}
+
+func (c *helloConn) Write(b []byte) (int, error) {
+	if c.done {
+		return c.Conn.Write(b)
+	}
+	c.done = true
+	k := c.split
+	if k <= 0 || k > len(b) {
+		k = len(b)
+	}
+	first := append([]byte(c.delim), b[:k]...)
+	if _, err := c.Conn.Write(first); err != nil {
+		return 0, err
+	}
+	if k < len(b) {
+		time.Sleep(time.Millisecond)
+		if _, err := c.Conn.Write(b[k:]); err != nil {
+			return k, err
+		}
+	}
+	return len(b), nil
 }
 
 // DialRawTCP connects a raw scripted client to addr.
@@ -214,6 +250,11 @@ func (p *RawPeer) startReader() {
 			for {
 				var raw json.RawMessage
 				if err := dec.Decode(&raw); err != nil {
+					if p.pausing {
+						// interrupted by PauseReader: the connection goes to the script
+						p.pause = true
+						return
+					}
 					if !p.closed.IsSet() {
 						p.note("s-close", nil, "", err.Error())
 						p.closed.Set()
@@ -443,7 +484,10 @@ func (p *RawPeer) UpgradeTLS(server bool) error {
 	p.reader.WaitFor(time.Minute)
 	// the envelope delimiter behind the last cleartext envelope may still be on its way: like any
 	// robust endpoint the scripted one skips JSON whitespace in front of the first TLS record
-	under := &wsSkipConn{Conn: p.raw}
+	var under net.Conn = &wsSkipConn{Conn: p.raw}
+	if p.HelloDelim != "" || p.HelloSplit > 0 {
+		under = &helloConn{Conn: under, delim: p.HelloDelim, split: p.HelloSplit}
+	}
 	var tc *tls.Conn
 	if server {
 		tc = tls.Server(under, srvCfg)
@@ -515,6 +559,19 @@ func (p *RawPeer) startDrain() {
 			}
 		}
 	}()
+}
+
+// PauseReader stops the cleartext reader of a TCP peer between two envelopes (nothing may be in
+// flight towards it), so that the next bytes - a TLS handshake - are left on the connection.
+func (p *RawPeer) PauseReader() {
+	if p.Kind != "tcp" || p.TLS || p.pause {
+		return
+	}
+	p.pausing = true
+	p.conn.SetReadDeadline(time.Now())
+	p.reader.WaitFor(time.Minute)
+	p.conn.SetReadDeadline(time.Time{})
+	p.pausing = false
 }
 
 // ResumeCleartext resumes reading without upgrading (a peer that ignores the negotiated TLS).
